@@ -254,7 +254,6 @@ func conflictMsg(w *ksim.World, id string, of int, signer string) *clienttypes.M
 	return msg
 }
 
-
 var prefix = [][]byte{[]byte("ibc"), []byte("")}
 
 func (s *sm) Init(wk *ksim.Worker) *ksim.World {
@@ -722,6 +721,20 @@ func run(c *core.C) {
 	sc := &sm{c: c, part: name, nRel: nRel, nPar: nPar, seenG: map[string]bool{}}
 	c.Set("evaluations", 0)
 	c.Set("distinct_nontrivial", 0)
+	if c.Replay != "" {
+		// a violation recorded in the root state has an empty history, which ksim.ReplayParts does not evaluate
+		var art struct {
+			History []ksim.Op `json:"history"`
+		}
+		if err := c.LoadReplay(&art); err == nil && len(art.History) == 0 {
+			w := sc.Init(ksim.NewWorker(c.T, 2))
+			w.Flatten()
+			sc.Invariant(w)
+			c.Set("states", 1)
+			c.Set("transitions", 0)
+			return
+		}
+	}
 	ksim.RunParts(c, []ksim.Part{{Name: name, Sc: sc, Cfg: ksim.Config{MaxDepth: core.Pick(c, 9, 12)}}}, nil)
 	c.Set("rule", "a cell is (reachable state, operation, signer class); it is non-trivial when, in that state and for that operation, the reference table's expected result differs between at least two signer classes (so the signer decides the outcome and the authorised signer's success is the control proving the message is otherwise valid)")
 	c.Set("operations", len(matrix)-1)
